@@ -68,7 +68,7 @@ func c09Gen(rt *rapid.T) c09Case {
 			Score: rapid.IntRange(0, npool-1).Draw(rt, "score"), Topic1: rapid.Bool().Draw(rt, "t1"), Out: rapid.Bool().Draw(rt, "out")})
 	}
 	n := rapid.IntRange(3, 40).Draw(rt, "nops")
-	kinds := []string{"pub", "pub", "graft", "graft", "ihave", "ihave", "iwant", "iwant", "hb", "hb", "lpub", "lpub", "fpub", "fpub", "px", "px", "score", "score", "throttle", "mixed", "adv"}
+	kinds := []string{"pub", "pub", "graft", "graft", "ihave", "ihave", "iwant", "iwant", "hb", "hb", "lpub", "lpub", "fpub", "fpub", "px", "px", "score", "score", "throttle", "mixed", "adv", "join1"}
 	for i := 0; i < n; i++ {
 		op := c09Op{Op: rapid.SampledFrom(kinds).Draw(rt, "op"), P: rapid.IntRange(1, np).Draw(rt, "p")}
 		switch op.Op {
@@ -155,6 +155,7 @@ func c09RunInBubble(t *testing.T, c c09Case, res *vfResult) {
 	t0, t1 := vfTopic(0), vfTopic(1)
 	h0, _ := n.ps.Join(t0)
 	h1, _ := n.ps.Join(t1)
+	joined1 := false
 	var sub *Subscription
 	if c.Joined {
 		sub, _ = h0.Subscribe()
@@ -266,7 +267,7 @@ func c09RunInBubble(t *testing.T, c c09Case, res *vfResult) {
 					res.violate("C09/graylisted-message-processed", step, "message from peer %d (score %g < graylist %g) was delivered=%v forwarded to %d peers", op.P, sc, c.Graylist, has(got, data), len(fw))
 				}
 				res.label("graylisted-publish")
-			} else if c.Joined && !throttling {
+			} else if c.Joined && (!throttling || isDirect(op.P)) { // RPCs of direct peers are accepted whatever the gater thinks
 				if !has(got, data) {
 					res.violate("C09/accepted-message-dropped", step, "message from peer %d (score %g >= graylist %g, direct=%v) was not delivered", op.P, sc, c.Graylist, isDirect(op.P))
 				}
@@ -401,6 +402,28 @@ func c09RunInBubble(t *testing.T, c c09Case, res *vfResult) {
 				if !served {
 					res.violate("C09/iwant-not-served", step, "IWANT from peer %d (score %g >= gossip %g) for a cached message was not served", op.P, sc, c.Gossip)
 				}
+			}
+		case "join1":
+			// subscribe to topic 1 (once): members of its fanout set are promoted into the mesh, the rest is selected
+			if joined1 {
+				continue
+			}
+			preFan := fanout(t1)
+			if _, err := h1.Subscribe(); err != nil {
+				res.violate("C09/publish-error", step, "Subscribe failed: %v", err)
+				continue
+			}
+			joined1 = true
+			n.settle()
+			n.drain()
+			for p := range mesh(t1) {
+				idx := n.byID[p]
+				if score(idx) < 0 {
+					res.violate("C09/negative-grafted", step, "joining %s put peer %d (score %g < 0, fanout member before: %v) into the mesh", t1, idx, score(idx), preFan[p])
+				}
+			}
+			if len(preFan) > 0 {
+				res.label("join-with-fanout")
 			}
 		case "lpub", "fpub":
 			// lpub: publish to topic 0 (mesh or flood); fpub: publish to topic 1, which is never joined (fan-out or flood)
